@@ -31,6 +31,7 @@ use std::sync::{Arc, Mutex};
 
 use c05::*;
 use p3_circuit::ops::{HintExecutor, Poseidon1Trace, Poseidon2Trace};
+use p3_circuit::tables::NonPrimitiveTrace;
 use p3_circuit::{CircuitError, Op, Traces, WitnessId};
 use p3_field::PrimeField64;
 use p3r_verif::fields::Setup;
@@ -339,6 +340,51 @@ fn install_hints<C: Cfg>(built: &mut Built<C>, st: &Arc<DevState>) -> (usize, us
 // Executing one plan
 // ------------------------------------------------------------------------------------------
 
+/// Recorded input limbs (canonical values) of every Poseidon permutation row of a run.
+fn poseidon_row_inputs<C: Cfg>(traces: &Traces<EOf<C>>) -> Option<Vec<Vec<u64>>> {
+    let can = |v: &[BOf<C>]| v.iter().map(|x| x.as_canonical_u64()).collect::<Vec<u64>>();
+    for t in traces.non_primitive_traces.values() {
+        if let Some(p) = t.as_any().downcast_ref::<Poseidon2Trace<BOf<C>>>() {
+            return Some(p.operations.iter().map(|r| can(&r.input_values)).collect());
+        }
+        if let Some(p) = t.as_any().downcast_ref::<Poseidon1Trace<BOf<C>>>() {
+            return Some(p.operations.iter().map(|r| can(&r.input_values)).collect());
+        }
+    }
+    None
+}
+
+/// Replaces the recorded input limbs of Poseidon row `at` (what the table prover recomputes the
+/// permutation columns from) by `forged`. Nothing else of the traces is touched.
+fn forge_row_inputs<C: Cfg>(traces: &mut Traces<EOf<C>>, at: usize, forged: &[u64]) -> bool {
+    let vals: Vec<BOf<C>> = forged.iter().map(|v| bel::<C>(*v)).collect();
+    for t in traces.non_primitive_traces.values_mut() {
+        let edited: Option<Box<dyn NonPrimitiveTrace<EOf<C>>>> =
+            if let Some(p) = t.as_any().downcast_ref::<Poseidon2Trace<BOf<C>>>() {
+                let mut p = p.clone();
+                match p.operations.get_mut(at) {
+                    Some(r) if r.input_values.len() == vals.len() => r.input_values = vals.clone(),
+                    _ => return false,
+                }
+                Some(Box::new(p))
+            } else if let Some(p) = t.as_any().downcast_ref::<Poseidon1Trace<BOf<C>>>() {
+                let mut p = p.clone();
+                match p.operations.get_mut(at) {
+                    Some(r) if r.input_values.len() == vals.len() => r.input_values = vals.clone(),
+                    _ => return false,
+                }
+                Some(Box::new(p))
+            } else {
+                None
+            };
+        if let Some(e) = edited {
+            *t = e;
+            return true;
+        }
+    }
+    false
+}
+
 #[derive(Debug)]
 enum Outcome {
     RunnerError(String),
@@ -347,6 +393,8 @@ enum Outcome {
     ProverFailed(String),
     Rejected(String),
     Accepted { mismatches: Vec<Value> },
+    /// row-input family only: accepted, and every sampled value equals the native one
+    AcceptedSame,
     /// honest plan only
     HonestOk(String),
 }
@@ -370,7 +418,9 @@ fn exec_plan<C: Cfg>(
     pin: Option<&str>,
 ) -> Outcome {
     st.arm(plan);
-    let traces = match guarded(|| run_built::<C>(built, &built.publics)) {
+    let row_input = matches!(plan, Plan::RowInput { .. });
+    #[allow(unused_mut)]
+    let mut traces = match guarded(|| run_built::<C>(built, &built.publics)) {
         Ok(Ok(t)) => t,
         Ok(Err(e)) => return Outcome::RunnerError(err_variant(&e)),
         Err(p) => return Outcome::RunnerError(format!("panic@{}", panic_site(&p))),
@@ -387,11 +437,33 @@ fn exec_plan<C: Cfg>(
         if st.fired.load(Ordering::SeqCst) == 0 {
             return Outcome::NotApplied;
         }
-        if mismatches.is_empty() {
+        if let Plan::RowInput { at, .. } = plan {
+            // make the recorded row consistent with what was run: the table prover recomputes the
+            // permutation columns (and hence the exposed outputs) from the recorded row inputs
+            let forged = st.forged.lock().unwrap().clone();
+            match forged {
+                Some(f) if forge_row_inputs::<C>(&mut traces, *at, &f) => {}
+                _ => return Outcome::NotApplied,
+            }
+        } else if mismatches.is_empty() {
             return Outcome::NoEffect;
         }
     } else if !mismatches.is_empty() {
         return Outcome::RunnerError(format!("honest transcript differs from native: {}", mismatches[0]));
+    } else {
+        // the honest row inputs the row-input family forges from; sanity: the plain permutation of
+        // the recorded inputs is what the (hooked) executor produced, row by row
+        let rows = poseidon_row_inputs::<C>(&traces).unwrap_or_default();
+        let hist = st.hist.lock().unwrap().clone();
+        let consistent = rows.len() == hist.len()
+            && rows.iter().zip(&hist).all(|(r, o)| {
+                let mut y: Vec<BOf<C>> = r.iter().map(|v| bel::<C>(*v)).collect();
+                r.len() == C::WIDTH && {
+                    C::raw_permute(&mut y);
+                    y.iter().map(|v| v.as_canonical_u64()).eq(o.iter().copied())
+                }
+            });
+        *st.rows.lock().unwrap() = if consistent { rows } else { vec![] };
     }
     let proof = match guarded(|| <C::S as Setup>::prove(&kit.prover, &traces, &kit.cpd)) {
         Ok(Ok(p)) => p,
@@ -405,6 +477,8 @@ fn exec_plan<C: Cfg>(
                 Outcome::HonestOk(this_pin)
             } else if pin.is_some_and(|p| p != this_pin) {
                 Outcome::Rejected("preprocessed-commitment-differs-from-pinned".into())
+            } else if row_input && mismatches.is_empty() {
+                Outcome::AcceptedSame
             } else {
                 mismatches.truncate(4);
                 Outcome::Accepted { mismatches }
@@ -428,6 +502,9 @@ fn classify<C: Cfg>(plan: &Plan) -> (&'static str, String) {
                 ("rate-unbound", if all { "rate-all".into() } else { "rate-one".into() })
             }
         }
+        Plan::RowInput { lanes, class, .. } => {
+            ("row-input-unbound", format!("{}-{}", class.name(), if lanes.len() == 1 { "one" } else { "all" }))
+        }
         Plan::HighCoeff { .. } => ("rate-unbound", "rate-highcoeff".into()),
         Plan::ExtHint { .. } => ("hint-unbound", "ext-coeffs".into()),
         Plan::BitsHint { .. } => ("hint-unbound", "bits".into()),
@@ -438,12 +515,15 @@ fn classify<C: Cfg>(plan: &Plan) -> (&'static str, String) {
 /// of the signature where the binding mechanism differs per mode (coefficient targets are read
 /// through the recompose table or through ALU rows): rate limbs and extension-coefficient hints.
 /// Capacity limbs and bit hints do not pass through recomposition before they are (not) checked.
+/// Row inputs: a packed permutation (degree 4 / 2) reads recomposed limbs (mode in the signature);
+/// a base permutation reads the state targets directly (no mode).
 fn signature<C: Cfg>(plan: &Plan, recompose: bool) -> String {
     let (class, limb) = classify::<C>(plan);
     let coarse = limb.trim_end_matches("-all").trim_end_matches("-one");
     let mode = if recompose { "npo" } else { "alu" };
     match plan {
         Plan::ExtHint { .. } | Plan::HighCoeff { .. } => format!("{class}/{}+{mode}/{coarse}", C::NAME),
+        Plan::RowInput { .. } if C::PERM_D > 1 => format!("{class}/{}+{mode}/{coarse}", C::NAME),
         Plan::Perm { limbs, .. } if limbs.iter().any(|l| *l < C::RATE) => format!("{class}/{}+{mode}/{coarse}", C::NAME),
         _ => format!("{class}/{}/{coarse}", C::NAME),
     }
@@ -453,6 +533,7 @@ fn plan_tag(plan: &Plan) -> String {
     match plan {
         Plan::Honest => "honest".into(),
         Plan::Perm { at, val, .. } => format!("{}@perm{}", val.name(), at),
+        Plan::RowInput { at, val, .. } => format!("{}@row{}", val.name(), at),
         Plan::HighCoeff { at, .. } => format!("random@perm{at}"),
         Plan::ExtHint { at, mode } => format!("mode{mode}@hint{at}"),
         Plan::BitsHint { at } => format!("x+p@hint{at}"),
